@@ -68,6 +68,29 @@ def run(ctx, rnd):
                     ctx.fail("P:C12:own-definition", case, got, v["ref"])
         finally:
             tzp.use_default()
+    # ------------------------------------------------------------- custom ids that LOOK like something a provider might resolve itself
+    # (POSIX TZ strings, GMT offsets, abbreviations): the calendar's own definition is the one that counts
+    def offsets_of(text):
+        return [(lambda o: None if o is None else int(o.total_seconds() // 60))(e["DTSTART"].dt.utcoffset())
+                for e in Calendar.from_ical(text).walk("VEVENT")]
+    for prov in ("zoneinfo", "pytz"):
+        try:
+            for name in ("CET-1CEST", "JST-9", "XYZ3", "AAA-2BBB", "UTC+3", "GMT+5", "EST5", "PST8PDT7", "<-03>3", "Custom"):
+                tzp.use(prov)
+                text = "\r\n".join(["BEGIN:VCALENDAR", "VERSION:2.0", "PRODID:verif", "BEGIN:VTIMEZONE", f"TZID:{name}", "BEGIN:STANDARD", "DTSTART:19700101T000000",
+                                    "TZOFFSETFROM:+0545", "TZOFFSETTO:+0545", "TZNAME:OWN", "END:STANDARD", "END:VTIMEZONE", "BEGIN:VEVENT", "UID:1",
+                                    f"DTSTART;TZID={name}:20210330T120000", "END:VEVENT", "BEGIN:VEVENT", "UID:2", f"DTSTART;TZID={name}:20211130T120000",
+                                    "END:VEVENT", "END:VCALENDAR"]) + "\r\n"
+                ctx.case(("posix-like-id", prov, name), True)
+                try:
+                    got = offsets_of(text)
+                except Exception as e:   # noqa: BLE001
+                    got = [type(e).__name__]
+                if got != [345, 345]:
+                    ctx.fail("P:C12:own-definition", {"tzid": name, "provider": prov, "impl_equal": False, "kf": False}, got, [345, 345])
+        finally:
+            tzp.use_default()
+
     # ------------------------------------------------------------- capacity: many distinct custom zones in one process
     # (a bounded or evicting cache must not take a definition away from the calendar that contains it)
     # spec/TzCacheCap: several ids; OwnDefinition holds for the unbounded first-wins cache and is refuted for an evicting one
